@@ -52,7 +52,7 @@ func vOps() int {
 	return 3
 }
 
-//verif:harness prop=C20 name=pool_lifecycle threads=2 preempt=2 t_preempt=3 unwind=12 witness=lenient
+//verif:harness prop=C20 name=pool_lifecycle threads=2 sched=delay preempt=2 t_preempt=3 unwind=12 witness=lenient
 func VerifPoolLifecycle() {
 	s := &vState{}
 	n := zzverif.Choose("initial", 3)
